@@ -3,10 +3,11 @@ the exact centre, axis points, apex, torus ring points and surface points; judge
 (exact distances for spheres / circles / boxes, tolerance laws decided in the harness for the others).
 
 Also model3d.ProfilePointSDF / ProfileSDF / ProfileSolid of a 2D Rect (= box, exact) and of a 2D Circle (= cylinder,
-tolerance laws); these fields have no NormalSDF, the normal clauses are vacuous for them (record field nonormal)."""
+tolerance laws); these fields have no NormalSDF; MeshToSDF over integer tetrahedra / octahedra with obtuse corners,
+|SDF| compared with a brute-force minimum over the faces (clause "distance"); these fields have no NormalSDF, the normal clauses are vacuous for them (record field nonormal)."""
 import solids
 
-CLAUSES = {"panic", "sign", "agree", "point", "normal", "exact"}
+CLAUSES = {"panic", "sign", "agree", "point", "normal", "exact", "distance"}
 
 
 def run(ctx):
